@@ -107,6 +107,61 @@ func c13(r *Run) {
 		r.Visited += ss.Visited
 		r.obW("C13.R1:onAccept:stays-tracked-only-if-active", "a stored connection stays tracked only on an edge where onAccept observed it active after the store: any close (by the peer, by OnPrepare's user code, ...) that happened before the untrack callback existed is untracked here", onAccept, store, wit, "connections.Delete, or an active observation, on every path after the Store")
 	}
+	// ... and the same Dekker pair against Shutdown: Close publishes "closing" before it sweeps the map, onAccept stores and then
+	// re-reads it - an accept that is already past Accept() when Shutdown runs is either seen by the sweep or closes its
+	// connection itself; otherwise Shutdown returns nil with a connection that is stored afterwards and lives on
+	{
+		flagOf := func(i ssa.Instruction, ops ...string) string {
+			a := asAtomic(i)
+			if a == nil {
+				return ""
+			}
+			for _, op := range ops {
+				if a.Op == op {
+					if f := structFieldOfAddr(a.Addr); strings.HasPrefix(f, "server.") {
+						return f
+					}
+				}
+			}
+			return ""
+		}
+		ranges := findIns(srvClose, func(i ssa.Instruction) bool { return isMapOp(i, "Range", "connections") })
+		flag := ""
+		var pub ssa.Instruction
+		forEachIns(srvClose, func(i ssa.Instruction) {
+			if f := flagOf(i, "Store", "Add", "CompareAndSwap", "Swap"); f != "" && flag == "" {
+				okAll := len(ranges) > 0
+				for _, rg := range ranges {
+					ss := &Search{Fn: srvClose, Stop: isIns(i)}
+					if ss.Find([]Start{Entry(srvClose)}, isIns(rg), false) != nil {
+						okAll = false
+					}
+					r.Visited += ss.Visited
+				}
+				if okAll {
+					flag, pub = f, i
+				}
+			}
+		})
+		r.ob("C13.R1:shutdown-published-before-sweep", "server.Close marks the server as closing (an atomic write to a server field) before it sweeps the tracked connections", srvClose, pub, flag != "", "atomic write of "+flag+" dominates connections.Range", true)
+		if flag != "" {
+			r.mustPass("C13.R1:onAccept:recheck-shutdown-after-store", "after storing the connection onAccept re-reads the server's closing mark on every path (publish, then check - on both sides)", onAccept, store, []Start{After(store)},
+				func(i ssa.Instruction) bool { return flagOf(i, "Load") == flag || isMapOp(i, "Delete", "connections") }, nil, nil, "Load("+flag+") (or the untracking of an already closed connection) on every path after the Store")
+			loads := findIns(onAccept, func(i ssa.Instruction) bool { return flagOf(i, "Load") == flag })
+			isLoad := func(v ssa.Value) bool {
+				for _, l := range loads {
+					if v == l.(ssa.Value) {
+						return true
+					}
+				}
+				return false
+			}
+			set := cmpAtom(isLoad, isConstEq(0), neqRel)
+			starts := edgesEstablishing(onAccept, set)
+			r.mustPass("C13.R1:onAccept:closes-when-shut-down", "when the server is found closing the freshly stored connection is closed (Shutdown's sweep may already be over)", onAccept, store, starts,
+				func(i ssa.Instruction) bool { return isCall(i, w.Fn("(*connection).Close")) }, nil, nil, "connection.Close() on every path from the closing edge")
+		}
+	}
 	// a connection that OnPrepare closed is not tracked
 	r.guarded("C13.R1:track-only-active", "a connection closed during OnPrepare is not tracked", onAccept, store, callResultAtom(ro.isActive, true), nil, "Store guarded by IsActive()")
 	// onConnect is fired for tracked connections
@@ -114,7 +169,10 @@ func c13(r *Run) {
 		ss := &Search{Fn: onAccept}
 		_ = ss
 		starts := edgesEstablishing(onAccept, callResultAtom(ro.isActive, true))
-		r.mustPass("C13.R1:tracked-goes-through-onConnect", "every connection that is tracked (and still open) goes on to onConnect()", onAccept, nil, []Start{After(store)}, func(i ssa.Instruction) bool { return isCall(i, ro.onConnectM) }, cutOn(closedFact(ro)), nil, "onConnect() on every path after the Store (unless the connection was seen closed)")
+		r.mustPass("C13.R1:tracked-goes-through-onConnect", "every connection that is tracked (and still open) goes on to onConnect()", onAccept, nil, []Start{After(store)}, func(i ssa.Instruction) bool {
+			// ... or onAccept closes the connection itself (seen closed, or the server is shutting down)
+			return isCall(i, ro.onConnectM) || isCall(i, w.Fn("(*connection).Close"))
+		}, cutOn(closedFact(ro)), nil, "onConnect() on every path after the Store (unless the connection was seen closed or is closed right here)")
 		_ = starts
 	}
 	// who touches the map
